@@ -123,3 +123,98 @@ def rb_random(r, n):
             r.shuffle(seq)
         out.append("blkrb " + " ".join(map(str, seq)))
     return out
+
+
+# ------------------------------------------------------------------ end-to-end transfers
+def e2e_line(d, ln, seed, typ, cli, srv, app, sc, ss, mtu, sched=""):
+    return ("e2e %s %d %d %d %d %d %d %d %d %d %d %s" %
+            (d, ln, seed, typ, cli, srv, app, sc, ss, mtu, mtu, sched)).rstrip()
+
+
+def e2e_boundary(r, ks=(1, 2, 3), full=False):
+    """lossless transfers with length = k*chunk -1/0/+1 for every block size 16..1024; the block
+    size is requested in turn by the client context, the server context, the client
+    application's preset option, or is forced by the path MTU"""
+    out = []
+    i = 0
+    for s in SZX:
+        c = chunk(s)
+        for k in ks:
+            for d in (-1, 0, 1):
+                ln = k * c + d
+                for dr in ("b1", "b2"):
+                    who = i % 3
+                    i += 1
+                    cli, srv, app = 7, 7, 7
+                    if who == 0:
+                        cli = s
+                    elif who == 1:
+                        srv = s
+                    else:
+                        app = s
+                    variants = [(i % 2, (i >> 1) % 2, (i >> 2) % 2)]
+                    if full:
+                        variants = [(t, a, b) for t in (0, 1) for a in (0, 1) for b in (0, 1)]
+                    for (typ, sc, ss) in variants:
+                        out.append(e2e_line(dr, ln, r.randrange(250), typ, cli, srv, app, sc, ss, 0))
+    return out
+
+
+def e2e_small_and_large(r, n_large):
+    out = []
+    for ln in (0, 1, 15, 16, 17, 1023, 1024, 1025):
+        for dr in ("b1", "b2"):
+            for typ in (0, 1):
+                out.append(e2e_line(dr, ln, r.randrange(250), typ, 7, 7, 7, 1, 1, 0))
+    for _ in range(n_large):
+        ln = r.choice([r.randrange(1, 66000), 65535, 65536, r.randrange(1, 9000)])
+        s = r.randrange(3, 7) if ln > 20000 else r.randrange(7)
+        out.append(e2e_line(r.choice(["b1", "b2"]), ln, r.randrange(250), r.randrange(2),
+                            r.choice([7, s]), r.choice([7, s]), r.choice([7, 7, s]),
+                            r.randrange(2), r.randrange(2), r.choice([0, 0, 1500, 300])))
+    return out
+
+
+def e2e_mtu(r):
+    """the path MTU decides the block size: 72 (smallest that can carry a 16-byte block next to
+    the reserved Echo option) .. 1500"""
+    out = []
+    for mtu in (64, 71, 72, 73, 80, 88, 100, 128, 160, 200, 300, 600, 1151, 1152, 1153, 1500):
+        for dr in ("b1", "b2"):
+            ln = r.choice([40, 200, 1000, 2500])
+            out.append(e2e_line(dr, ln, r.randrange(250), r.randrange(2), 7, 7, 7, 1, 1, mtu))
+            out.append(e2e_line(dr, ln + 1, r.randrange(250), r.randrange(2), 7, 7, 7, 0, 0, mtu))
+    return out
+
+
+def e2e_sched_exhaustive(r, alphabet, n, bodies):
+    import itertools
+    out = []
+    for (dr, ln, s, typ, single) in bodies:
+        for acts in itertools.product(alphabet, repeat=n):
+            out.append(e2e_line(dr, ln, 77, typ, s, 7, 7, single, single, 0, "".join(acts)))
+    return out
+
+
+def e2e_sched_random(r, n):
+    out = []
+    for _ in range(n):
+        s = r.randrange(7)
+        c = chunk(s)
+        k = r.randrange(1, 7)
+        ln = max(1, k * c + r.choice([-1, 0, 1, r.randrange(-c + 1, c)]))
+        cli, srv, app = 7, 7, 7
+        w = r.randrange(4)
+        if w == 0:
+            cli = s
+        elif w == 1:
+            srv = s
+        elif w == 2:
+            app = s
+        else:
+            cli = s
+            srv = r.randrange(7)
+        sched = "".join(r.choice("....x2rh") for _ in range(r.randrange(1, 16)))
+        out.append(e2e_line(r.choice(["b1", "b2"]), ln, r.randrange(250), r.randrange(2), cli, srv, app,
+                            r.randrange(2), r.randrange(2), r.choice([0, 0, 0, 128, 300, 1500]), sched))
+    return out
